@@ -43,7 +43,7 @@ def N(V, clone=False, keep=False):
         cn = cname(path)
         if len(args) == 1 and (path in IDENTITY_CALLS[:-1] or cn in ("Into::into", "From::from") or cn.endswith("Into<U>>::into")):
             return args[0]
-        if clone and len(args) == 1 and cn == "Clone::clone":
+        if clone and len(args) == 1 and (cn == "Clone::clone" or cn.endswith("Clone>::clone")):
             return args[0]
         if cn in ("Result::unwrap",) and len(args) == 1 and args[0][0] == "call" and cname(args[0][1]).endswith("try_into"):
             return args[0][2][0]
